@@ -312,6 +312,8 @@ pub fn apply(inst: &mut InstSpec, params: &mut Option<Vec<u64>>, mu: &Mutation) 
 pub struct Rules {
     /// the three ID rules of validate()
     pub id_rules: Vec<&'static str>,
+    /// for each broken ID rule: (error kind, field of the message in which it is broken)
+    pub id_fields: Vec<(&'static str, &'static str)>,
     /// the additional requirements of the typed conversion; (error kind, field that must appear in the path)
     pub extra: Vec<(&'static str, &'static str)>,
 }
@@ -322,6 +324,7 @@ pub fn judge(inst: &InstSpec, params: &Option<Vec<u64>>) -> Rules {
     for v in &inst.vars {
         if !defined.insert(v.id) {
             r.id_rules.push("duplicate-variable-id");
+            r.id_fields.push(("DuplicatedVariableID", "decision_variables"));
         }
     }
     if let Some(ps) = params {
@@ -337,12 +340,15 @@ pub fn judge(inst: &InstSpec, params: &Option<Vec<u64>>) -> Rules {
         active.insert(c.id);
         if !cids.insert(c.id) {
             r.id_rules.push("duplicate-constraint-id");
+            r.id_fields.push(("DuplicatedConstraintID", "constraints"));
         }
     }
     for rc in &inst.removed {
         if let Some(c) = &rc.constraint {
             if !cids.insert(c.id) {
                 r.id_rules.push("duplicate-constraint-id");
+                // a removed constraint repeating an active or an earlier removed ID is found in the removed list
+                r.id_fields.push(("DuplicatedConstraintID", "removed_constraints"));
             }
         }
     }
@@ -365,6 +371,16 @@ pub fn judge(inst: &InstSpec, params: &Option<Vec<u64>>) -> Rules {
     }
     if !used.is_subset(&defined) {
         r.id_rules.push("undefined-variable-id");
+        let undefined_in = |f: Option<&FuncSpec>| f.map(|f| !f.ids().is_subset(&defined)).unwrap_or(false);
+        if undefined_in(inst.objective.as_ref()) {
+            r.id_fields.push(("UndefinedVariableID", "objective"));
+        }
+        if inst.constraints.iter().any(|c| undefined_in(c.function.as_ref())) {
+            r.id_fields.push(("UndefinedVariableID", "constraints"));
+        }
+        if inst.removed.iter().any(|rc| undefined_in(rc.constraint.as_ref().and_then(|c| c.function.as_ref()))) {
+            r.id_fields.push(("UndefinedVariableID", "removed_constraints"));
+        }
     }
     // typed conversion
     if inst.sense != 1 && inst.sense != 2 {
@@ -480,6 +496,13 @@ fn base_case(rng: &mut Rng) -> (InstSpec, Option<Vec<u64>>) {
             *f = Some(FuncSpec::Constant(F(0.0)));
         }
     };
+    // a binary variable may carry any valid explicit bound; the typed view must carry it unchanged
+    for v in &mut inst.vars {
+        if v.kind == 1 && rng.chance(1, 3) {
+            let (l, u) = *rng.pick(&[(-1.0, 2.0), (0.0, 5.0), (2.0, 3.0), (0.0, 0.0), (1.0, 1.0), (f64::NEG_INFINITY, f64::INFINITY), (0.5, 0.5)]);
+            v.bound = Some((F(l), F(u)));
+        }
+    }
     fix(&mut inst.objective);
     for c in &mut inst.constraints {
         fix(&mut c.function);
@@ -646,20 +669,7 @@ impl Prop for C08 {
                 } else {
                     // the reported rule and path must name one of the broken rules
                     let mut acceptable: Vec<(String, &str)> = rules.extra.iter().map(|(k, f)| (k.to_string(), *f)).collect();
-                    for r in &rules.id_rules {
-                        match *r {
-                            "duplicate-variable-id" => acceptable.push(("DuplicatedVariableID".into(), "decision_variables")),
-                            "duplicate-constraint-id" => {
-                                acceptable.push(("DuplicatedConstraintID".into(), "constraints"));
-                                acceptable.push(("DuplicatedConstraintID".into(), "removed_constraints"));
-                            }
-                            _ => {
-                                acceptable.push(("UndefinedVariableID".into(), "objective"));
-                                acceptable.push(("UndefinedVariableID".into(), "constraints"));
-                                acceptable.push(("UndefinedVariableID".into(), "removed_constraints"));
-                            }
-                        }
-                    }
+                    acceptable.extend(rules.id_fields.iter().map(|(k, f)| (k.to_string(), *f)));
                     let msg_field = match &e.error {
                         ommx::parse::RawParseError::MissingField { field, .. } => Some(*field),
                         _ => None,
